@@ -696,7 +696,7 @@ class Fxp():
 
         """
 
-        x = self.copy()
+        x = self.deepcopy()     # (a new object: it does not share configuration, status nor callbacks with this one)
         x.val = x.val.flatten(order)
         return x
 
@@ -2124,7 +2124,7 @@ class Fxp():
 
     @property
     def T(self):
-        x = self.copy()
+        x = self.deepcopy()     # (a new object, as transpose() returns)
         x.val = x.val.T
         return x    
     
